@@ -87,6 +87,14 @@ def parser_work(item):
     import aioftp
     part = report.Partial()
     c = aioftp.Client(path_io_factory=aioftp.MemoryPathIO)
+
+    def refusing(b):
+        raise ValueError("custom parser: not mine")
+
+    # every documented configuration of the listing parsers: none / a custom one, tried first / last
+    configs = [c] + [aioftp.Client(path_io_factory=aioftp.MemoryPathIO, parse_list_line_custom=custom,
+                                   parse_list_line_custom_first=first)
+                     for custom in (None, refusing) for first in (False, True)][:-1 if family not in ("unix", "windows") else None]
     for seed in seeds:
         raw = seed if isinstance(seed, bytes) else seed.encode()
         cases = mutations(raw) + [raw]
@@ -96,6 +104,11 @@ def parser_work(item):
             part.evaluations += 1
             try:
                 if family in ("unix", "windows"):
+                    for other in configs[1:]:
+                        try:
+                            other.parse_list_line(m)
+                        except ValueError:
+                            pass
                     res = c.parse_list_line(m)
                     ok = (isinstance(res, tuple) and len(res) == 2 and isinstance(res[0], pathlib.PurePosixPath)
                           and isinstance(res[1], dict) and all(isinstance(k, str) and isinstance(v, (str, int))
